@@ -25,6 +25,12 @@ class BaseType(object):
         self.default = value
 
     def get_default(self):
+        # A mutable default (SEQUENCE OF / SET OF ... DEFAULT {}) must
+        # not be handed out itself: the caller owns what decode
+        # returns.
+        if isinstance(self.default, list):
+            return list(self.default)
+
         return self.default
 
     def has_default(self):
